@@ -192,7 +192,7 @@ func (r *DistrRun) RunBlock() (pan interface{}) {
 	r.Block++
 	bctx := r.Ctx.WithEventManager(sdk.NewEventManager())
 	func() {
-		defer func() { pan = recover() }()
+		defer func() { pan = notRapid(recover()) }()
 		cfedistributor.BeginBlocker(bctx, r.K)
 	}()
 	r.LastEvs = bctx.EventManager().Events()
